@@ -21,6 +21,26 @@ CLAIMED = {
              'by replaying a witness on the un-instrumented code), the reference model in '
              'vf/oracles/subst.py; os.getenv is stubbed by a finite environment',
         ref='DESIGN.md section 7 C04'),
+    'C03': dict(
+        text='For every text within the bounds (1-3 fully symbolic lines and 18-29 line templates with '
+             'symbolic holes, characters over ASCII plus one representative per non-ASCII class) z3 shows '
+             'on every feasible path of the real parser - driven through a recording context and through '
+             'the schema-less loader - that the event trace / nested mapping equals the one an independent '
+             'line-grammar reference produces, or that both reject with the same error family.',
+        note='trusted: z3, engine models of str/regex primitives (replayed per path on pristine code), '
+             'vf/oracles/linegrammar.py; lines are split at \\n only; resource URL empty',
+        ref='DESIGN.md section 7 C03'),
+    'C09': dict(
+        text='For every stock datatype with a reference contract and every input string up to the '
+             'per-type length bound (regex types over all of Unicode, the others over domain D) z3 shows '
+             'on every path that the converter returns the reference value or raises ValueError exactly '
+             'when the reference does, that key normalisers are idempotent and that Registry.get '
+             'normalises names; the regex languages are additionally proved equal to reference regexes '
+             'for strings of every length (z3 regex theory).',
+        note='trusted: z3, engine models of str/int()/regex primitives (replayed per path), '
+             'vf/oracles/dtspec.py, a pure-Python model of inet_pton(AF_INET6); float, timedelta, locale, '
+             'existing-* are outside the claim',
+        ref='DESIGN.md section 7 C09', engine='E1-VSE + E2-regex'),
 }
 
 NOT_YET = 'harness not built yet in this revision (see DESIGN.md section 7 for the plan)'
